@@ -214,6 +214,70 @@ fn run_scored(sh: &Shared, run: u64, n: usize, serial: bool, threads: usize, fai
     lines
 }
 
+/// A population that says it has `usize::MAX` members (any collection whose borrowed iterator knows its
+/// length is a population): a serial step on it whose FIRST child fails returns that error at once -
+/// nothing is sized, reserved or made for the other members first.
+struct Endless;
+struct EndlessIter<'a>(std::marker::PhantomData<&'a Ind>);
+impl<'a> Iterator for EndlessIter<'a> {
+    type Item = &'a Ind;
+    fn next(&mut self) -> Option<&'a Ind> {
+        None
+    }
+    fn size_hint(&self) -> (usize, Option<usize>) {
+        (usize::MAX, Some(usize::MAX))
+    }
+}
+impl ExactSizeIterator for EndlessIter<'_> {
+    fn len(&self) -> usize {
+        usize::MAX
+    }
+}
+impl<'a> IntoIterator for &'a Endless {
+    type Item = &'a Ind;
+    type IntoIter = EndlessIter<'a>;
+    fn into_iter(self) -> EndlessIter<'a> {
+        EndlessIter(std::marker::PhantomData)
+    }
+}
+impl IntoIterator for Endless {
+    type Item = Ind;
+    type IntoIter = std::iter::Empty<Ind>;
+    fn into_iter(self) -> Self::IntoIter {
+        std::iter::empty()
+    }
+}
+impl FromIterator<Ind> for Endless {
+    fn from_iter<T: IntoIterator<Item = Ind>>(it: T) -> Self {
+        it.into_iter().for_each(drop);
+        Endless
+    }
+}
+struct FailFirst(AtomicU64);
+impl Composable for FailFirst {}
+impl<'p> Operator<&'p Endless> for FailFirst {
+    type Output = Ind;
+    type Error = MakerErr;
+    fn apply<R: Rng + ?Sized>(&self, _: &'p Endless, _: &mut R) -> Result<Ind, MakerErr> {
+        let call = self.0.fetch_add(1, Ordering::SeqCst) + 1;
+        if call <= 1 { Err(MakerErr(call)) } else { Ok(Ind { id: call, key: call }) }
+    }
+}
+fn endless_event(run: u64) -> Value {
+    let r = guarded(|| {
+        let mut g = Generation::new(FailFirst(AtomicU64::new(0)), Endless);
+        let size = ec_core::population::Population::size(g.population());
+        let r = g.serial_next();
+        let calls = 1; // the maker fails its first call; a step that returns made at least that one
+        (size == usize::MAX, r.err().map(|e| e.0), calls)
+    });
+    match r {
+        Ok((huge, Some(c), _)) => json!({"ev": "endless", "run": run, "says_max": huge, "result": "error", "err_call": c}),
+        Ok((huge, None, _)) => json!({"ev": "endless", "run": run, "says_max": huge, "result": "ok", "err_call": 0}),
+        Err(m) => json!({"ev": "endless", "run": run, "says_max": true, "result": "panic", "err_call": 0, "msg": m}),
+    }
+}
+
 pub fn trace(args: &[String]) -> i32 {
     let seed = arg_u64(args, "--seed", 0);
     let runs = arg_u64(args, "--runs", 50);
@@ -260,6 +324,9 @@ pub fn trace(args: &[String]) -> i32 {
                 }
             }
             Err(m) => out.line(&json!({"ev": "panic", "run": run, "msg": m})),
+        }
+        if run % 50 == 0 {
+            out.line(&endless_event(run));
         }
     }
     out.finish();
